@@ -64,6 +64,9 @@ let step _ cs os =
      (match get_opt o "other" with
       | Some n when n <> "0" -> out := ("BAD\tside=impl\tclause=unexpected-on_error-reports:" ^ n) :: !out
       | _ -> ());
+     (match get_opt o "slowrej" with
+      | Some ms -> out := ("BAD\tside=impl\tclause=refusal-at-the-cap-not-immediate:ms=" ^ ms) :: !out
+      | None -> ());
      if not (M.c16_obs_eqb impl model) then begin
        let d = ref [] in
        if impl.M.o_modes <> model.M.o_modes then d := "modes" :: !d;
